@@ -59,7 +59,10 @@ def fresh_load(text):
     ruamel's composer in a state that poisons the next load of a shared editor."""
     from yamlpath.common import Parsers
     log = gen.QuietLog()
-    data, ok = Parsers.get_yaml_data(Parsers.get_yaml_editor(), log, text, literal=True)
+    try:
+        data, ok = Parsers.get_yaml_data(Parsers.get_yaml_editor(), log, text, literal=True)
+    except Exception as ex:  # noqa  (the loader itself crashed on this text: the text is not loadable)
+        return None, "loader raised %s: %s" % (type(ex).__name__, ex)
     if not ok:
         return None, "; ".join(m for _, m in log.msgs) or "load failed"
     return data, None
@@ -453,6 +456,23 @@ def diff_canon(exp, obs, pos=()):
             yield from diff_canon(ev, ov, pos + (("i", i),))
     else:
         yield pos, "members", exp, obs
+
+
+def canon_at(c, pos):
+    """Sub-tree of canonical data at a position (None when absent)."""
+    for kind, ref in pos:
+        if kind == "k" and c[0] == "map":
+            hit = [v for k, v in c[1] if "%s:%s" % (k[0], "" if len(k) < 2 else k[-1]) == ref]
+        elif kind == "i" and c[0] == "seq":
+            hit = c[1][ref:ref + 1] if 0 <= ref < len(c[1]) else []
+        elif kind == "m" and c[0] == "set":
+            hit = [m for m in c[1] if "%s:%s" % (m[0], "" if len(m) < 2 else m[-1]) == ref]
+        else:
+            hit = []
+        if not hit:
+            return None
+        c = hit[0]
+    return c
 
 
 def skeleton(c):
